@@ -2,6 +2,7 @@ package props
 
 import (
 	"fmt"
+	"go/ast"
 	"sort"
 
 	"golang.org/x/tools/go/ssa"
@@ -169,7 +170,44 @@ func qpReadsOnly(c *core.Ctx, clause, method, key, badMsg string) {
 						keys["<non-constant>"] = true
 					}
 				} else if len(id) > len("http.QueryParams.") && id[:len("http.QueryParams.")] == "http.QueryParams." {
-					others[id[len("http.QueryParams."):]] = true
+					name := id[len("http.QueryParams."):]
+					// an unexported lookup helper shared by the getters (durationOr(key, def), …):
+					// the constant strings it is handed are the parameters read
+					g := x.Common().StaticCallee()
+					if g != nil && !ast.IsExported(name) {
+						consts := 0
+						for _, a := range x.Common().Args {
+							if s, ok := an.ConstString(a); ok {
+								keys[s] = true
+								consts++
+							}
+						}
+						if consts == 0 {
+							keys["<non-constant>"] = true
+						}
+						// the helper itself must not look at any other fixed parameter
+						for _, hf := range an.WithClosures(g) {
+							an.Instrs(hf, func(hin ssa.Instruction) {
+								switch y := hin.(type) {
+								case *ssa.Lookup:
+									if s, ok := an.ConstString(y.Index); ok {
+										keys[s] = true
+									}
+								case ssa.CallInstruction:
+									hid := an.CalleeID(y)
+									if hid == "http.QueryParams.HasKey" {
+										if s, ok := an.ConstString(y.Common().Args[len(y.Common().Args)-1]); ok {
+											keys[s] = true
+										}
+									} else if len(hid) > len("http.QueryParams.") && hid[:len("http.QueryParams.")] == "http.QueryParams." && ast.IsExported(hid[len("http.QueryParams."):]) {
+										others[hid[len("http.QueryParams."):]] = true
+									}
+								}
+							})
+						}
+					} else {
+						others[name] = true
+					}
 				}
 			}
 		})
